@@ -165,7 +165,9 @@ func handleSINTER(params internal.HandlerFuncParams) ([]byte, error) {
 
 	var sets []*Set
 
-	for key, exists := range keyExists {
+	// Check the keys in the order they were given, so that the outcome does not depend on map iteration order.
+	for _, key := range keys.ReadKeys {
+		exists := keyExists[key]
 		if !exists {
 			return []byte("*0\r\n"), nil
 		}
@@ -224,7 +226,9 @@ func handleSINTERCARD(params internal.HandlerFuncParams) ([]byte, error) {
 
 	var sets []*Set
 
-	for key, exists := range keyExists {
+	// Check the keys in the order they were given, so that the outcome does not depend on map iteration order.
+	for _, key := range keys.ReadKeys {
+		exists := keyExists[key]
 		if !exists {
 			return []byte(":0\r\n"), nil
 		}
@@ -255,7 +259,9 @@ func handleSINTERSTORE(params internal.HandlerFuncParams) ([]byte, error) {
 
 	var sets []*Set
 
-	for key, exists := range keyExists {
+	// Check the keys in the order they were given, so that the outcome does not depend on map iteration order.
+	for _, key := range keys.ReadKeys {
+		exists := keyExists[key]
 		if !exists {
 			// The intersection with a missing set is empty: the destination is replaced by that
 			// (empty) result, i.e. whatever it held before is removed.
@@ -516,7 +522,9 @@ func handleSUNION(params internal.HandlerFuncParams) ([]byte, error) {
 	var sets []*Set
 
 	values := params.GetValues(params.Context, keys.ReadKeys)
-	for key, value := range values {
+	// Check the keys in the order they were given, so that the outcome does not depend on map iteration order.
+	for _, key := range keys.ReadKeys {
+		value := values[key]
 		// Keys that do not exist are skipped, as documented.
 		if value == nil {
 			continue
@@ -550,7 +558,9 @@ func handleSUNIONSTORE(params internal.HandlerFuncParams) ([]byte, error) {
 	var sets []*Set
 
 	values := params.GetValues(params.Context, keys.ReadKeys)
-	for key, value := range values {
+	// Check the keys in the order they were given, so that the outcome does not depend on map iteration order.
+	for _, key := range keys.ReadKeys {
+		value := values[key]
 		// Keys that do not exist are skipped, as documented.
 		if value == nil {
 			continue
